@@ -13,6 +13,12 @@ var ConnEntryPoints = []string{
 	"OCSPResponse", "VerifyHostname", "LocalAddr", "RemoteAddr", "NetConn",
 }
 
+// ConnCallees are the methods of conn.go that the handshake code in the other files of
+// the package calls (with handshakeMutex and in held during a handshake; with in held for
+// post-handshake messages).  They are summarised on their own so that the discipline can
+// be checked for them under those entry lock sets.
+var ConnCallees = []string{"readHandshake", "readChangeCipherSpec", "WriteRecord", "sendAlert", "flush", "connectionStateLocked"}
+
 // ConnSummary produces coq/gen/C34Summary_gen.v from tls/conn.go.
 func ConnSummary(path string) (string, error) {
 	F, err := Parse(path, Config{Types: map[string]bool{"Conn": true}, Descend: map[string]bool{"halfConn": true}})
@@ -69,7 +75,26 @@ func ConnSummary(path string) (string, error) {
 		}
 	}
 	sb.WriteString(strings.Join(lines, ";\n"))
-	sb.WriteString("\n].\n\n(* goroutines started inside those methods *)\n")
+	sb.WriteString("\n].\n\n")
+	sb.WriteString("(* methods of conn.go called by the handshake code of the other files *)\n")
+	sb.WriteString("Definition callees : list (string * xprog) := [\n")
+	var clines []string
+	for _, m := range ConnCallees {
+		fd := F.methods["Conn"][m]
+		if fd == nil {
+			return "", fmt.Errorf("method Conn.%s not found", m)
+		}
+		w := NewWalker(F, m)
+		w.Phases = true
+		w.inline(fd, "Conn", nil)
+		if w.NeedMore {
+			clines = append(clines, fmt.Sprintf("  (%q, [B (Write \"?phase-guard-in-callee\")])", m))
+			continue
+		}
+		clines = append(clines, fmt.Sprintf("  (%q, %s)", m, XCoqProg(w.Steps())))
+	}
+	sb.WriteString(strings.Join(clines, ";\n"))
+	sb.WriteString("\n].\n\n(* goroutines started inside the entry-point methods *)\n")
 	sb.WriteString("Definition spawned : list (string * prog) := [\n")
 	seenT := map[string]bool{}
 	var ts []string
